@@ -53,6 +53,15 @@ var c20Templates = []string{
 	"{% capture c %}{% for i in l %}{{ i }}{% endfor %}{% endcapture %}{{ c | append: x }}{{ c }}",
 	"a{% if false %}never{% endif %}b{% if true %}{% endif %}c",
 	"{% tablerow i in l cols: 1 %}{% for j in l %}{{ j }}{% endfor %}{% endtablerow %}",
+	// iterations that end by break / continue, as the last thing of the template and with output after them
+	"{% tablerow i in l cols: 2 %}{{ i }}{% if i == 2 %}{% break %}{% endif %}{% endtablerow %}",
+	"{% tablerow i in l cols: 2 %}{{ i }}{% if i == 2 %}{% break %}{% endif %}{% endtablerow %}end",
+	"{% tablerow i in l cols: 2 %}{{ i }}{% continue %}never{% endtablerow %}",
+	"{% tablerow i in l %}{% if i == 1 %}{% continue %}{% endif %}{{ i }}{% endtablerow %}end",
+	"{% for i in l %}{{ i }}{% break %}{% endfor %}",
+	"{% for i in l %}{{ i }}{% continue %}never{% endfor %}",
+	"{% for i in l %}{% tablerow j in l cols: 2 %}{{ j }}{% break %}{% endtablerow %}{% if i == 2 %}{% break %}{% endif %}{% endfor %}",
+	"{% tablerow i in l cols: 2 %}{% for j in l %}{% continue %}{% endfor %}{% continue %}{% endtablerow %}",
 }
 
 // c20Skeletons: every subset of hyphen positions of a few block skeletons (the trim writer holds
@@ -309,7 +318,7 @@ func init() {
 	explore.Register(&explore.Prop{
 		ID:    "C20",
 		Level: "fault_enumeration",
-		Rule: "every subset of hyphen positions of 6 block skeletons (if, for, raw inside if, capture, unless/else, tablerow: ~1000 templates) and 34 templates (four of them with 100..600 writes or a 70 KB write) covering every tag (incl. tablerow, include, capture, nested loops, cycle, registered tag and block), trim-marker placements, empty output and long text; a fault-free render records the W Write calls and their sizes; then for EVERY k in 0..W-1 the writer fails on call k accepting 0 bytes or a strict prefix (all prefix lengths for calls <=8 bytes (quick) / <=64 (thorough), else 1, len/2, len-1), failing once or forever, through FRender and ParseAndFRender; plus short writes with a nil error (totality only); " +
+		Rule: "every subset of hyphen positions of 6 block skeletons (if, for, raw inside if, capture, unless/else, tablerow: ~1000 templates) and 42 templates (eight with loops whose iterations end by break or continue; four of them with 100..600 writes or a 70 KB write) covering every tag (incl. tablerow, include, capture, nested loops, cycle, registered tag and block), trim-marker placements, empty output and long text; a fault-free render records the W Write calls and their sizes; then for EVERY k in 0..W-1 the writer fails on call k accepting 0 bytes or a strict prefix (all prefix lengths for calls <=8 bytes (quick) / <=64 (thorough), else 1, len/2, len-1), failing once or forever, through FRender and ParseAndFRender; plus short writes with a nil error (totality only); " +
 			"class = (template, fault kind, partial accept); distinct_nontrivial counts distinct classes",
 		Assumptions: []string{"a writer that returns n < len(p) with a nil error violates io.Writer; only absence of a panic is required there"},
 		Setup:       func(tier string) { c20.eng = c20Engine(); c20Build(tier) },
